@@ -13,14 +13,15 @@
   * "the octets are the standard's canonical form (shortest-length integers,
     unused-bit count for bit strings, 4/8-octet IEEE floats, 10+22-bit object
     identifiers)"
-        → `unsigned_minimal`, `unsigned_shortest`, `integer_minimal`,
-          `integer_shortest`, `bits_header`, `real_len4`, `double_len8`,
-          `oid_layout`, `oid_word_bijection`
+        → `unsigned_minimal`, `unsigned_shortest`, `unsigned_canonical_unique`,
+          `integer_minimal`, `integer_shortest`, `bits_header`, `real_len4`,
+          `double_len8`, `oid_layout`, `oid_word_bijection`, `oid_octets_bijection`
   * "If a value cannot be represented the encoder refuses with an error; it
     never emits octets that decode to a different value"
         → `prim_refuses` (¬Valid → error) together with `prim_roundtrip`
           (Valid → the same value), and `prim_never_alters` (whatever is emitted
-          decodes to the value that was given)
+          decodes to the value that was given); `decodePrim_only_invalidTag`
+          (a decoder fails with InvalidTag or not at all); `app_to_object_roundtrip`
   * "Enumerated … and their subclasses" / "every enumeration name and number"
         → generic `xlate_name_number_name`, `xlate_number_name_number`,
           `enum_roundtrip`, `enum_number_preserved` under `NoDupNames`,
@@ -1247,6 +1248,110 @@ theorem gen_bits_ok : ∀ p ∈ Gen.Enums.bitTables,
   simp only [bitsOK, Bool.and_eq_true, List.all_eq_true, decide_eq_true_eq] at h
   exact ⟨Distinct.distinctNames_nodup _ h.1.1, Distinct.distinctNats_nodup _ h.1.2, h.2⟩
 
+/-! ## further consequences -/
+
+/-- **app_to_object_roundtrip** — an application tag identifies its own type:
+    `Tag.app_to_object` recovers the value from the tag alone. -/
+theorem app_to_object_roundtrip (v : PrimVal) (h : Valid v) :
+    ∃ t, encodePrim v = .ok t ∧ appToObject t = .ok (some v) := by
+  obtain ⟨t, h1, h2⟩ := prim_roundtrip v h
+  obtain ⟨hcls, hnum, _⟩ := encodePrim_shape v t h1
+  refine ⟨t, h1, ?_⟩
+  have h16 : ¬ t.num ≥ 16 := by rw [hnum]; cases (tyOf v) <;> simp [PrimTy.appTag]
+  have hty : PrimTy.ofAppTag t.num = some (tyOf v) := by
+    rw [hnum]; cases (tyOf v) <;> rfl
+  simp [appToObject, hcls, h16, hty, h2, Except.map]
+
+/-- **decodePrim_only_invalidTag** — the decoders are total and fail in one
+    way only: whatever the tag, the result is a value or `InvalidTag`. -/
+theorem decodePrim_only_invalidTag (ty : PrimTy) (t : Tag) (e : Err)
+    (h : decodePrim ty t = .error e) : e = .invalidTag := by
+  unfold decodePrim at h
+  split at h
+  · rename_i e' hc
+    simp only [checkApp] at hc
+    split at hc
+    · cases hc; cases h; rfl
+    · cases hc
+  · cases ty <;> simp only at h
+    · split at h <;> cases h; rfl
+    · split at h <;> cases h; rfl
+    · split at h <;> cases h; rfl
+    · cases hd : t.data with
+      | nil => rw [hd] at h; simp [decodeIntegerData, Except.map] at h; exact h.symm
+      | cons b bs => rw [hd] at h; simp [decodeIntegerData, Except.map] at h
+    · split at h <;> cases h; rfl
+    · split at h <;> cases h; rfl
+    · cases h
+    · split at h <;> cases h; rfl
+    · cases hd : t.data with
+      | nil => rw [hd] at h; simp [decodeBitsData, Except.map] at h; exact h.symm
+      | cons b bs =>
+        rw [hd] at h
+        simp only [decodeBitsData] at h
+        split at h <;> simp [Except.map] at h
+    · split at h <;> cases h; rfl
+    · unfold decodeQuad at h
+      split at h
+      · simp [Except.map] at h
+      · simp [Except.map] at h; exact h.symm
+    · unfold decodeQuad at h
+      split at h
+      · simp [Except.map] at h
+      · simp [Except.map] at h; exact h.symm
+    · split at h
+      · cases h; rfl
+      · cases h
+
+theorem beVal_inj : ∀ (l1 l2 : Bytes), l1.length = l2.length → beVal l1 = beVal l2 → l1 = l2
+  | [], [], _, _ => rfl
+  | [], _ :: _, h, _ => by simp at h
+  | _ :: _, [], h, _ => by simp at h
+  | a :: l1, b :: l2, hl, hv => by
+      have hl' : l1.length = l2.length := by simpa using hl
+      rw [beVal_cons, beVal_cons, hl'] at hv
+      have h1 := beVal_lt l1
+      have h2 := beVal_lt l2
+      rw [hl'] at h1
+      have hp := pow256_pos l2.length
+      generalize 256 ^ l2.length = P at *
+      have hab : a.toNat = b.toNat := by
+        have e1 : (a.toNat * P + beVal l1) / P = a.toNat := by
+          rw [Nat.mul_comm, Nat.mul_add_div hp, Nat.div_eq_of_lt h1]; simp
+        have e2 : (b.toNat * P + beVal l2) / P = b.toNat := by
+          rw [Nat.mul_comm, Nat.mul_add_div hp, Nat.div_eq_of_lt h2]; simp
+        rw [← e1, ← e2, hv]
+      have hrest : beVal l1 = beVal l2 := by
+        rw [hab] at hv; omega
+      rw [UInt8.toNat_inj.mp hab, beVal_inj l1 l2 hl' hrest]
+
+/-- **unsigned_canonical_unique** — the emitted octets are THE canonical form:
+    any non-empty octet string with the same value and no redundant leading
+    zero octet is the emitted one. -/
+theorem unsigned_canonical_unique (n : Nat) (h : n < 4294967296) (d : Bytes)
+    (hd : encodeUnsignedData n = .ok d) (d' : Bytes) (hne : d' ≠ []) (hv : beVal d' = n)
+    (hcan : ∀ a b rest, d' = a :: b :: rest → a.toNat ≠ 0) : d' = d := by
+  obtain ⟨d0, h0, h1, _, h3, h4, h5, h6⟩ := unsigned_minimal n h
+  rw [hd] at h0; cases h0
+  have hle := unsigned_shortest n h d hd d' hne hv
+  have hge : d'.length ≤ d.length := by
+    apply Classical.byContradiction
+    intro hlt
+    have hlt : d.length < d'.length := by omega
+    match d', hne, hlt, hv, hcan with
+    | [], hne, _, _, _ => exact absurd rfl hne
+    | [_], _, hlt, _, _ => simp only [List.length_cons, List.length_nil] at hlt; omega
+    | a :: b :: rest, _, hlt, hv, hcan =>
+      have ha := hcan a b rest rfl
+      rw [beVal_cons] at hv
+      have hp := pow256_pos (b :: rest).length
+      have : 1 * 256 ^ (b :: rest).length ≤ a.toNat * 256 ^ (b :: rest).length :=
+        Nat.mul_le_mul_right _ (by omega)
+      have hmono : 256 ^ d.length ≤ 256 ^ (b :: rest).length :=
+        Nat.pow_le_pow_right (by omega) (by simp only [List.length_cons] at hlt ⊢; omega)
+      omega
+  exact beVal_inj d' d (by omega) (by rw [hv, h3])
+
 /-! ## non-vacuity: concrete, non-trivial instances of every hypothesis
     (these are tests of the statements, not the theorems) -/
 
@@ -1296,5 +1401,9 @@ example : unsignedCtor 0 (some 65535) 65535 = .ok 65535 ∧
 example : bitsFromNames Gen.Enums.bits_basetypes_StatusFlags 4
     [[102, 97, 117, 108, 116], [111, 117, 116, 79, 102, 83, 101, 114, 118, 105, 99, 101]]
     = .ok [false, true, false, true] := rfl
+
+-- `app_to_object` recovers type and value from the tag alone; reserved numbers give None
+example : appToObject (appData 3 [0xFF, 0x7F]) = .ok (some (.integer (-129))) := rfl
+example : appToObject (appData 13 []) = .ok none := rfl
 
 end BacVerif.C01
